@@ -28,7 +28,7 @@ def _corpus(chk):
 def run(chk):
     chk.build_js()
     quick = chk.tier == "quick"
-    passes = [_corpus] + ([_pass(chk.seed * 100 + 11, 1500, "schema(random)")] if quick else [_pass(chk.seed * 100 + k, 8000, f"schema(random#{k})") for k in range(6)])
+    passes = [_corpus] + ([_pass(chk.seed * 100 + 11, 3000, "schema(random)")] if quick else [_pass(chk.seed * 100 + k, 8000, f"schema(random#{k})") for k in range(6)])
     return vcheck.generic_run(chk, MODULES, AUDIT, passes,
         [PID + ": Model/{Schema,Hash}.lean model schema() of every class, SchemaPrintingContext, tryMergeAllOfObjectSchemas, removeNullUnionBranch, synthetic variant names (32-bit hash) by hand",
          PID + ": python jsonschema 4.x (Draft 2020-12) with the harness' custom formats is the judge of schema validity in the search; function types are excluded from the generators"],
